@@ -120,6 +120,9 @@ func scaffoldSet(sp *spaceCtx, thorough bool, shorts []int, filter func(string) 
 		scs = append(scs, h.ScaffoldBigRoot(sp.sigma, wh))
 	}
 	scs = append(scs, h.ScaffoldBig2(sp.sigma, "in"), h.ScaffoldBig2(sp.sigma, "under"))
+	for k := 0; k < 4; k++ {
+		scs = append(scs, h.ScaffoldBigPair(k))
+	}
 	for _, s := range shorts {
 		if f := shortFiller(sp.sigma, s, false); f != nil {
 			scs = append(scs, h.ScaffoldFixed(fmt.Sprintf("short%d", s), f, "\xb0"))
